@@ -48,13 +48,8 @@ void FullHmmTransitionMatrix::setTransitionProbabilities(const Matrix<double>& m
   for (size_t i = 0; i < mat.getNumberOfRows(); ++i)
   {
     vSimplex_[i].setFrequencies(mat.row(i));
-    ParameterList pls = vSimplex_[i].getParameters();
-    for (size_t j = 0; j < pls.size(); ++j)
-    {
-      Parameter* p = pls[j].clone();
-      p->setName(TextTools::toString(i + 1) + "." + p->getName());
-      pl.addParameter(p);
-    }
+    // The names of the simplex parameters already carry the "<row>." prefix:
+    pl.addParameters(vSimplex_[i].getParameters());
   }
 
   matchParametersValues(pl);
@@ -72,6 +67,19 @@ const Matrix<double>& FullHmmTransitionMatrix::getPij() const
         pij_(i, j) = vSimplex_[i].prob(j);
       }
     }
+    // The matrix and its equilibrium frequencies share one flag: compute both.
+    // All entries are positive, so the rows of P^(2^40) all equal the stationary distribution.
+    size_t salph = getNumberOfStates();
+    MatrixTools::pow(pij_, static_cast<size_t>(1) << 40, tmpmat_);
+    double sum = 0;
+    for (size_t i = 0; i < salph; ++i)
+    {
+      sum += tmpmat_(0, i);
+    }
+    for (size_t i = 0; i < salph; ++i)
+    {
+      eqFreq_[i] = tmpmat_(0, i) / sum;
+    }
     upToDate_ = true;
   }
 
@@ -80,22 +88,7 @@ const Matrix<double>& FullHmmTransitionMatrix::getPij() const
 
 const std::vector<double>& FullHmmTransitionMatrix::getEquilibriumFrequencies() const
 {
-  size_t salph = getNumberOfStates();
-
-  if (!upToDate_)
-  {
-    pij_ = getPij();
-
-    MatrixTools::pow(pij_, 256, tmpmat_);
-
-    for (size_t i = 0; i < salph; ++i)
-    {
-      eqFreq_[i] = tmpmat_(0, i);
-    }
-
-    upToDate_ = true;
-  }
-
+  getPij();
   return eqFreq_;
 }
 
